@@ -493,11 +493,31 @@ fn process_tags(
     let mut element_errors: HashMap<OrderIndex, (SvgElement, SvgdxError)> = HashMap::new();
     let remain = &mut Vec::new();
 
+    // `^` names the element written before, not the one evaluated last: every attempt
+    // starts from the previous-element state its earlier siblings leave behind, and that
+    // state is not known while one of them still waits for a retry.
+    let order: Vec<OrderIndex> = tags.iter().map(|(idx, _)| idx.clone()).collect();
+    let entry_prev = context.get_prev_element().cloned();
+    // resolved siblings: the previous element they set, if they set one
+    let mut prev_set_by: HashMap<OrderIndex, Option<SvgElement>> = HashMap::new();
+
     while !tags.is_empty() && remain.len() != tags.len() {
         // state of the context's change counter just after the first failure of this pass
         let mut changes_at_first_failure: Option<u64> = None;
+        let mut cursor = 0;
+        // `None`: an earlier sibling is unresolved, so what `^` means here is not known
+        let mut lexical_prev: Option<Option<SvgElement>> = Some(entry_prev.clone());
         for (idx, t) in &mut tags.iter_mut() {
             let idx = idx.clone();
+            while cursor < order.len() && order[cursor] != idx {
+                if let Some(Some(el)) = prev_set_by.get(&order[cursor]) {
+                    lexical_prev = Some(Some(el.clone()));
+                }
+                cursor += 1;
+            }
+            cursor += 1;
+            let prev_given = lexical_prev.clone().flatten();
+            context.replace_prev_element(prev_given.clone());
             let el = if let Some(el) = t.get_element() {
                 // register early so reuse targets are available even if the element
                 // is not ready (e.g. within a specs block)
@@ -513,6 +533,17 @@ fn process_tags(
             if gen_result.is_err() {
                 // a failed attempt must leave no trace: it will be retried later
                 context.restore(snapshot);
+                if !context.in_specs {
+                    lexical_prev = None;
+                }
+            } else {
+                let prev_now = context.get_prev_element().cloned();
+                if prev_now != prev_given {
+                    lexical_prev = Some(prev_now.clone());
+                    prev_set_by.insert(idx.clone(), prev_now);
+                } else {
+                    prev_set_by.insert(idx.clone(), None);
+                }
             }
             #[cfg(feature = "verif")]
             crate::verif::elem_exit(context, gen_result.is_ok());
@@ -564,6 +595,14 @@ fn process_tags(
         mem::swap(tags, remain);
         remain.clear();
     }
+    // leave behind what the last sibling in document order left, not the last one evaluated
+    let mut last_prev = entry_prev;
+    for idx in &order {
+        if let Some(Some(el)) = prev_set_by.get(idx) {
+            last_prev = Some(el.clone());
+        }
+    }
+    context.replace_prev_element(last_prev);
     Ok(bbb.clone().build())
 }
 
